@@ -97,6 +97,7 @@ def ref_arnoldi_subdiag(A, v, m):
 
 
 MAPFORMS = ('identity_alias', 'reversal_view', 'buffer', 'zero_map', 'diag_basis')
+STIFF = ('stiff',)
 
 
 def special(rng, n, form, vreal):
@@ -130,6 +131,15 @@ def special(rng, n, form, vreal):
         v[supp] = rng.integers(1, 4, len(supp)) * (1 if vreal else rng.choice([1, -1, 1j, -1j], len(supp)))
         reach = np.unique(dg[supp])
         return dict(A=np.diag(dg), v=v, kdim=len(reach), lam=dg, reach=reach, Afunc=lambda x, dg=dg: dg * x)
+    if form == 'stiff':
+        # a cluster of eigenvalues in [-1, 1] and two far outliers: the outlying Ritz values converge after a few steps,
+        # which is where a three-term recurrence without full re-orthogonalization loses orthogonality
+        R = float(rng.choice([100.0, 1000.0]))
+        lam = np.concatenate([np.linspace(-1, 1, n - 2), [R, -R]])
+        X = rand_unitary(rng, n, not vreal)
+        A = (X * lam) @ X.conj().T
+        A = (A + A.conj().T) / 2
+        return dict(A=A, v=v, kdim=n, lam=lam, reach=lam)
     if form == 'buffer':
         P = build(rng, n, 'cherm', 'separated', n, vreal=vreal)
         buf = np.zeros(n, dtype=complex)
